@@ -396,10 +396,14 @@ class Script:
     def module_none(self, mid, start, end, base_avma, base_svma):
         return self.add("mod %s %s %s %s %s A none B 0" % (mid, hx(start), hx(end), hx(base_avma), hx(base_svma)))
     def module_dwarf(self, mid, start, end, base_avma, base_svma, pres, fdes, rng=None,
-                     shuffle=False, n_cies=1, eh_svma=None, hdr_svma=None, hdr_enc="abs8", pcrel=False, mixed=False, macho_names=False):
-        order = list(range(len(fdes)))
-        if shuffle and rng is not None:
-            rng.shuffle(order)
+                     shuffle=False, n_cies=1, eh_svma=None, hdr_svma=None, hdr_enc="abs8", pcrel=False, mixed=False, macho_names=False,
+                     order=None):
+        if order is not None:
+            order = list(order)                  # explicit section order of the FDEs
+        else:
+            order = list(range(len(fdes)))
+            if shuffle and rng is not None:
+                rng.shuffle(order)
         # the model sees the FDEs in section order
         sec_fdes = [fdes[i] for i in order]
         eh_svma = base_svma + 0x200000 if eh_svma is None else eh_svma
